@@ -108,7 +108,7 @@ Wrap(cfg, v) == IF cfg[1] = "List" THEN <<"list", <<ValidVal(cfg)[2][1], v>>>> E
 \* every producer / consumer pairing: the consumer's result parameter refers to a command PP of every data-producing kind
 Pairings(d) == UNION {(IF IsRes(Params(d)[k][2]) THEN {<<"pair", Params(d)[k][1], c>> : c \in {c \in DeclNames : OutKind(D(c)) = "data"}} ELSE {}) : k \in 1..Len(Params(d))}
 FaultsOf(d) ==
-    {<<"none", "", <<>>>>, <<"unknown", "", <<>>>>, <<"dup", "", <<>>>>, <<"undeclared", "", <<>>>>}
+    {<<"none", "", <<>>>>, <<"unknown", "", <<>>>>, <<"foreign", "", <<>>>>, <<"dup", "", <<>>>>, <<"undeclared", "", <<>>>>}
     \cup {<<"missing", pn, <<>>>> : pn \in Required(d)}
     \cup (IF Pairs THEN Pairings(d) ELSE {})
     \cup UNION {{<<"wrong", Params(d)[k][1], w>> : w \in Wrong(Params(d)[k][2])} : k \in 1..Len(Params(d))}
@@ -125,6 +125,7 @@ Target(cname, all, f) ==
     LET d == D(cname) base == ArgsFor(d, all) IN
     CASE f[1] = "none" -> <<"T", cname, base>>
       [] f[1] = "unknown" -> <<"T", "NoSuchCommand", base>>
+      [] f[1] = "foreign" -> <<"T", "Probe", base>>        \* a command of a library this program did not request (another program of the process did)
       [] f[1] = "dup" -> <<"R", cname, base>>
       [] f[1] = "undeclared" -> <<"T", cname, Append(base, <<"Bogus", <<"int", "other">>>>)>>
       [] f[1] = "missing" -> <<"T", cname, SelectSeq(base, LAMBDA a : a[1] # f[2])>>
